@@ -301,7 +301,8 @@ def _execute(sc, root, want_texts):
                 s = _stats_of(err)
                 bump("io_short_writes_fired", s.get("short_writes", 0))
                 bump("io_raw_writes", s.get("raw_writes", 0))
-                wrote = "Wrote NSLIR file" in (out or "")
+                # acknowledged = the driver reported success (exit 0); what it prints is not relied on
+                wrote = code == 0
                 log.add("write", name=name, src=sd, opt=opt, how="cli", hs=st["hs"], io=_io_class(st["io"]), code=code,
                         wrote=wrote)
                 if probe:
